@@ -54,23 +54,32 @@ Record kstep := {
   s_cf : config;            (* mechanism + rule-level assertions in force for this request ([cf_remote] is not used) *)
   s_cache_on : bool;        (* isCacheEnabled() of the authenticator copy that serves it *)
   s_ttl : Z;                (* its configured cache_ttl as it enters the cache key: -1 = not configured, else ns *)
-  s_templated : bool;       (* the jwks_endpoint url contains {{ .TokenIssuer }} *)
+  s_templated : bool;       (* the key-set REQUEST depends on the token's issuer: {{ .TokenIssuer }} in the
+                               jwks_endpoint url and/or in one of its header values *)
+  s_tpl_url : bool;         (* ... and it is the url that contains the template (the cache key has the rendered url) *)
   s_env : kenv;
   s_now : Z;
   s_cred : cred }.
 
-(** createRequest: the rendered key-set URL; with a template it is chosen by the token's unverified issuer *)
+(** createRequest: the rendered key-set request (url + headers), identified by what it was rendered from;
+    with a template it is chosen by the token's unverified issuer.  The JWKS service answers per request. *)
 Definition url_of (templated : bool) (t : token) : string :=
   if templated then c_iss (t_claims t) else EmptyString.
 
+(** the part of the cache key that stands for the request: calculateCacheKey takes the endpoint hash (over the
+    UNRENDERED header templates) and the rendered URL, so a template in a header value does not reach the key
+    (C05-F6).  [fixed_F6] = fixes/C05-F6.diff: the rendered values of templated headers are part of the key. *)
+Definition curl_of (fixed_F6 : bool) (s : kstep) (t : token) : string :=
+  if fixed_F6 then url_of (s_templated s) t else url_of (s_tpl_url s) t.
+
 (** getKey after a cache miss: fetch, uniqueness, certificate check, cache fill *)
-Definition fetch_fill (s : kstep) (url kid : string) (c : kcache) : (err + jwk) * kcache :=
+Definition fetch_fill (s : kstep) (url curl kid : string) (c : kcache) : (err + jwk) * kcache :=
   match fetch (s_env s) url with
   | inl e => (inl e, c)
   | inr ks =>
     match get_key (s_cf s) ks kid with
     | None => (inl EKey, c)
-    | Some k => (inr k, if s_cache_on s then ((url, kid, s_ttl s), k) :: c else c)
+    | Some k => (inr k, if s_cache_on s then ((curl, kid, s_ttl s), k) :: c else c)
     end
   end.
 
@@ -78,12 +87,12 @@ Definition fetch_fill (s : kstep) (url kid : string) (c : kcache) : (err + jwk) 
     validate_jwk nor the trust store, so an authenticator that validates JWK certificates reuses what a laxer
     one sharing the endpoint has cached).  [fixed_F4] = fixes/C05-F4.diff: the cached key is validated with the
     settings of the authenticator at hand, an entry that does not pass is ignored. *)
-Definition get_key_c (fixed_F4 : bool) (s : kstep) (url kid : string) (c : kcache) : (err + jwk) * kcache :=
-  match (if s_cache_on s then cache_find c url kid (s_ttl s) else None) with
+Definition get_key_c (fixed_F4 : bool) (s : kstep) (url curl kid : string) (c : kcache) : (err + jwk) * kcache :=
+  match (if s_cache_on s then cache_find c curl kid (s_ttl s) else None) with
   | Some k => if negb fixed_F4 || key_valid (s_cf s) k
               then (inr k, c)                                       (* "Reusing JWK from cache" *)
-              else fetch_fill s url kid c
-  | None => fetch_fill s url kid c
+              else fetch_fill s url curl kid c
+  | None => fetch_fill s url curl kid c
   end.
 
 Definition finish (cf : config) (t : token) (r : option err) : result :=
@@ -94,7 +103,7 @@ Definition finish (cf : config) (t : token) (r : option err) : result :=
   end.
 
 (** Execute with the cache in the request context *)
-Definition step_c (f1 f2 f4 : bool) (s : kstep) (c : kcache) : result * kcache :=
+Definition step_c (f1 f2 f4 f6 : bool) (s : kstep) (c : kcache) : result * kcache :=
   match s_cred s with
   | CNone => (Failed ENoCreds, c)
   | CUnparsable => (Failed EParse, c)
@@ -110,18 +119,18 @@ Definition step_c (f1 f2 f4 : bool) (s : kstep) (c : kcache) : result * kcache :
            | inl er => (Failed er, c)
            | inr ks => (finish cf t (if verify_without_kid f1 f2 cf e (s_now s) t ks then None else Some ENoneOfKeys), c)
            end
-      else match get_key_c f4 s url (t_kid t) c with
+      else match get_key_c f4 s url (curl_of f6 s t) (t_kid t) c with
            | (inl er, c') => (Failed er, c')
            | (inr k, c') => (finish cf t (verify_with_key f1 f2 e (s_now s) t k), c')
            end
   end.
 
 (** a history against an initially empty cache: the answers, and the final cache *)
-Fixpoint run_c (f1 f2 f4 : bool) (h : list kstep) (c : kcache) : list result * kcache :=
+Fixpoint run_c (f1 f2 f4 f6 : bool) (h : list kstep) (c : kcache) : list result * kcache :=
   match h with
   | [] => ([], c)
-  | s :: r => let '(x, c') := step_c f1 f2 f4 s c in
-              let '(xs, c'') := run_c f1 f2 f4 r c' in (x :: xs, c'')
+  | s :: r => let '(x, c') := step_c f1 f2 f4 f6 s c in
+              let '(xs, c'') := run_c f1 f2 f4 f6 r c' in (x :: xs, c'')
   end.
 
-Definition run_history (f1 f2 f4 : bool) (h : list kstep) : list result := fst (run_c f1 f2 f4 h []).
+Definition run_history (f1 f2 f4 f6 : bool) (h : list kstep) : list result := fst (run_c f1 f2 f4 f6 h []).
